@@ -629,7 +629,7 @@ func Run(o RunOpts, body func()) *Exec {
 	t0.wake <- struct{}{}
 	select {
 	case <-e.finished:
-	case <-time.After(60 * time.Second):
+	case <-time.After(300 * time.Second):
 		buf := make([]byte, 1<<20)
 		buf = buf[:runtime.Stack(buf, true)]
 		fmt.Printf("ERROR hung execution (a controlled thread never reached a shim call); prefix=%v\n%s\n", o.Prefix, buf)
@@ -640,7 +640,7 @@ func Run(o RunOpts, body func()) *Exec {
 	wait := func(t *thread) {
 		select {
 		case <-t.exited:
-		case <-time.After(60 * time.Second):
+		case <-time.After(300 * time.Second):
 			buf := make([]byte, 1<<20)
 			buf = buf[:runtime.Stack(buf, true)]
 			fmt.Printf("ERROR hung teardown of T%d(%s); prefix=%v\n%s\n", t.id, t.name, o.Prefix, buf)
